@@ -75,6 +75,7 @@ type Collector struct {
 	exhaustive bool
 	test       string
 	regress    int64
+	wedged     bool
 }
 
 var (
@@ -245,6 +246,11 @@ func (c *Collector) Observe(cs interface{}, r Result) *Violation {
 		c.failed = true
 		c.viol = r.Viol
 		c.saveReplay(raw, r.Viol)
+		if strings.Contains(r.Viol.Signature, "wedged") || strings.Contains(r.Viol.Signature, "never-returns") {
+			// every re-execution of such a case blocks until the timeout again, and rapid checks its
+			// shrinking deadline only between passes: do not shrink wedges
+			c.wedged = true
+		}
 		return r.Viol
 	}
 	if c.failed {
@@ -401,6 +407,12 @@ func Run[C any](t *testing.T, property string, gen func(*rapid.T) C, exec func(C
 	}
 	rapid.Check(t, func(rt *rapid.T) {
 		cs := gen(rt)
+		c.mu.Lock()
+		w, wv := c.wedged, c.viol
+		c.mu.Unlock()
+		if w {
+			rt.Fatalf("VIOLATION-DETAIL property=%s signature=%s: %s (not shrunk: re-running a case that blocks costs a timeout each time)", property, wv.Signature, wv.Message)
+		}
 		r := exec(cs)
 		if v := c.Observe(cs, r); v != nil {
 			rt.Fatalf("VIOLATION-DETAIL property=%s signature=%s: %s", property, v.Signature, v.Message)
